@@ -29,7 +29,7 @@ THEOREMS = [
     'C02.dvectArr_none_iff', 'C02.dmag2Arr_eq', 'C02.displacement_atomwise',
     'C02.refBox_final', 'C02.refBox_initial', 'C02.refBox_none',
     'C02.dvectArr_rows', 'C02.sysDvect_rows', 'C02.sysDmag2_eq', 'C02.displacement_refuses',
-    'C02.dvect_scale', 'C02.dmag2_scale',
+    'C02.select_idx', 'C02.select_positions', 'C02.dvect_scale', 'C02.dmag2_scale',
     'C02.World.sysDvect_current', 'C02.World.sysDvect_history', 'C02.World.pbcEdit_read',
     'C02.World.boxVects_shared', 'C02.World.sysBoxSet_shared', 'C02.World.arrDmag2_history',
     'C02.World.disp_history',
@@ -1748,16 +1748,22 @@ MANIFEST = {
     'text': 'The loops of dvect.pyx/dmag.pyx are modelled in Lean (same candidate order, strict <) and proved, for every '
             'linearly ordered field, to return the direct separation shifted by n.vects with n_i in {-1,0,1} and n_i = 0 on '
             'non-periodic axes, never longer than any of the <=27 candidates, with dmag^2 = |dvect|^2, first-shortest tie '
-            'rule and translation invariance; displacement is that separation atom by atom under the selected cell. For '
-            'both points in the closed cell the result is the true nearest image over ALL integer shifts when the cell '
-            'vectors are mutually orthogonal (any orientation), and, for any cell with det != 0, whenever some image is '
-            'shorter than half the smallest perpendicular width of the periodic axes (that image is then unique, is one of '
-            'the 27 candidates and is exactly what dvect returns). The finite lattice radius used by the search oracle is a '
-            'theorem. The model is tied to the compiled code by an exact (bit for bit on a dyadic grid) correspondence run '
-            'over am.dvect, am.dmag, System.dvect/dmag (index/slice/list/position dispatch, squeeze) and am.displacement.',
+            'rule, translation invariance and scale covariance (no absolute length enters); every row of every broadcast '
+            'shape and of System.dvect/dmag (index / slice / list / tuple / integer-array / position dispatch, squeeze) is '
+            'such a separation; displacement is that separation atom by atom under the selected cell and refuses unequal '
+            'atom counts and unknown references. Box and System are modelled as mutable objects on a heap (a Box may be '
+            'held by several Systems; in-place edits of flags, cell and positions): after any history a query is the '
+            'stateless function of what the objects hold now. For both points in the closed cell the result is the true '
+            'nearest image over ALL integer shifts when the cell vectors are mutually orthogonal (any orientation), and, for '
+            'any cell with det != 0, whenever some image is shorter than half the smallest perpendicular width of the '
+            'periodic axes. The finite lattice radius used by the search oracle is a theorem. The model is tied to the '
+            'compiled code by an exact (bit for bit on dyadic grids times 2^k, k = -40..40) correspondence over am.dvect, '
+            'am.dmag, System.dvect/dmag, am.displacement and histories of in-place changes of Box/System objects.',
     'note': 'Trusted: Lean kernel + propext/Classical.choice/Quot.sound; the correspondence harness and its derived '
             'tolerance (2^-48 * input scale, tie margin computed by the model); numpy indexing/broadcast/sqrt. Floating '
-            'point rounding is modelled, not verified. Undefined behaviour of the unchecked memoryview for non-(n,3) '
-            'input is outside the model.',
-    'technique': 'Lean 4 theorems over a hand-written executable model + differential correspondence + exact lattice oracle',
+            'point rounding is modelled, not verified (box_set(scale=True) is compared within a derived bound). Undefined '
+            'behaviour of the unchecked memoryview for non-(n,3) input and of pbc with fewer than three flags is outside '
+            'the model.',
+    'technique': 'Lean 4 theorems over a hand-written executable model (stateless + object heap) + differential '
+                 'correspondence incl. operation histories + exact lattice oracle',
 }
